@@ -362,7 +362,7 @@ fn plan_for(t: usize, i: usize, k: usize, panic: bool) -> Vec<Act> {
 pub fn run_block_c18(verif_seed: u64, block: u64, n_bases: usize, opts: &BlockOpts) -> BlockSummary {
     let mut sum = BlockSummary { block, ..Default::default() };
     let (mut nt, mut tr) = (BTreeSet::new(), BTreeSet::new());
-    let ropts = RunOpts::default();
+
     let mut record = |sum: &mut BlockSummary, spec: &RunSpec, r: &RunResult, run: u64, variant: &str, seed: u64, nt: &mut BTreeSet<u64>, tr: &mut BTreeSet<u64>| -> bool {
         if opts.log {
             println!("RUN {} {} {:016x} {:016x} {:016x} {}", run, variant, spec.workload_hash(), r.trace_hash(), r.outcome_hash(), r.compared);
@@ -399,7 +399,7 @@ pub fn run_block_c18(verif_seed: u64, block: u64, n_bases: usize, opts: &BlockOp
         let g = gen_run(seed, Mode::C18);
         let mut r = Rng::new(derive(seed, 77));
         // --- base run: no faults -----------------------------------------------------------
-        let res = run_spec(&g.spec, Prop::C18, &ropts);
+        let res = run_spec(&g.spec, Prop::C18, &RunOpts::default());
         if record(&mut sum, &g.spec, &res, run, "base", seed, &mut nt, &mut tr) && opts.stop_first {
             break 'bases;
         }
@@ -421,7 +421,7 @@ pub fn run_block_c18(verif_seed: u64, block: u64, n_bases: usize, opts: &BlockOp
                 for k in 0..m {
                     let mut spec = g.spec.clone();
                     spec.threads[t].ops[i].plan = plan_for(t, i, k, panic);
-                    let res = run_spec(&spec, Prop::C18, &ropts);
+                    let res = run_spec(&spec, Prop::C18, &RunOpts::default());
                     sum.fault_plans += 1;
                     let variant = format!("{}@t{t}.o{i}.k{k}", if panic { "panic" } else { "err" });
                     if record(&mut sum, &spec, &res, run, &variant, seed, &mut nt, &mut tr) && opts.stop_first {
@@ -448,7 +448,7 @@ pub fn run_block_c18(verif_seed: u64, block: u64, n_bases: usize, opts: &BlockOp
                     }
                 }
             }
-            let res = run_spec(&spec, Prop::C18, &ropts);
+            let res = run_spec(&spec, Prop::C18, &RunOpts::default());
             sum.fault_plans += 1;
             if record(&mut sum, &spec, &res, run, "multi", seed, &mut nt, &mut tr) && opts.stop_first {
                 break 'bases;
